@@ -165,6 +165,23 @@ theorem unreadable_mutation_like_absent (db : DB) (w : Who) (l : String) (nm : O
   ⟨denied_update_changes_nothing db w l nm d hf (unreadable_not_writable w d h).1,
    denied_delete_changes_nothing db w l d hf (unreadable_not_writable w d h).2⟩
 
+/-- **a create that addresses an existing document changes nothing**, whoever asks and whether or not they may read
+    it (a document's identifier is a function of its initial content, so any requester who knows that content can
+    address it) -/
+theorem create_over_existing_changes_nothing (db : DB) (d e : Doc) (hf : find db d.label = some e) :
+    step db (.create d) = (db, .error) := by
+  simp [step, hf]
+
+/-- the create as it was before the repair: a requester without identity resets a document it may not read -/
+theorem pinned_create_resets_a_private_document :
+    let private_ : Doc := { label := "a", col := 0, registered := true, name := "updated" }
+    let again : Doc := { label := "a", col := 0, registered := false, name := "initial" }
+    canRead .anon private_ = false ∧
+    (createPinned .anon [private_] again).2 = .ok ∧
+    ((createPinned .anon [private_] again).1.map (·.name)) = ["initial"] ∧
+    step [private_] (.create again) = ([private_], .error) := by
+  decide
+
 /-! ### grants and revocations take effect in the next state -/
 
 theorem holds_after_grant (d : Doc) (n : Nat) (r : Rel) :
